@@ -20,6 +20,12 @@
   * `AlphaSafe ops`       : the history never calls `.add` on a set object (every set object of a
                             history was returned by `get_semantic_robust_alphabet`).
 
+  Key grammar (`C12_validation`, `C12_validKey_spec_simple`, `C12_validKey_charge_bound`):
+  `?` | `E` | `E+C` | `E-C` with `E ∈ ELEMENTS` and `C` matching `[1-9][0-9]*` with at most
+  `Gen.intMaxStrDigits` (= `sys.get_int_max_str_digits()`, 4300) digits.  The bound on the number
+  of digits is the repair of finding F10 (`_is_convertible` in bond_constraints.py): a charge
+  that `int()` cannot read back is not a valid key.
+
   All "after any history" theorems are inductions over arbitrary `ops : List Op`
   (`Inv.run`, `Sim.runFrom` in Proofs/Config.lean).
 
@@ -350,34 +356,167 @@ example :
 /-! ### what validation accepts -/
 
 /-- A dict is accepted iff `"?"` is a key, every key is a `str` satisfying the key grammar and
-    every value is a non-negative `int` (`bool` is an `int` in Python). -/
+    every value is a non-negative `int` (`bool` is an `int` in Python).  The key grammar, spelled
+    out for the actual `ELEMENTS`: `?` | `E` | `E+C` | `E-C` with `E ∈ ELEMENTS` and `C` matching
+    `[1-9][0-9]*` with AT MOST `Gen.intMaxStrDigits` (= `sys.get_int_max_str_digits()`) DIGITS, so
+    that `int(C)` converts (repair of finding F10: before the repair the number of digits was
+    unbounded and the robust alphabet could contain a symbol the decoder rejects). -/
 theorem C12_validation (d : PyDict) :
     validateDict d = none ↔
       PyKey.str qKey ∈ d.map (·.1) ∧
-      ∀ kv ∈ d, ∃ s, kv.1 = .str s ∧ validKey s = true ∧ kv.2.validCapacity = true := by
+      ∀ kv ∈ d, ∃ s, kv.1 = .str s ∧ kv.2.validCapacity = true ∧
+        (s = ['?'] ∨ s ∈ Gen.elements ∨
+          ∃ E sign c cs, s = E ++ sign :: c :: cs ∧ (sign = '+' ∨ sign = '-') ∧ E ∈ Gen.elements ∧
+            isDigit19 c = true ∧ (∀ x ∈ cs, isAsciiDigit x = true) ∧
+            (c :: cs).length ≤ Gen.intMaxStrDigits) := by
+  have hkey : ∀ s : Str, validKey s = true ↔
+      (s = ['?'] ∨ s ∈ Gen.elements ∨
+        ∃ E sign c cs, s = E ++ sign :: c :: cs ∧ (sign = '+' ∨ sign = '-') ∧ E ∈ Gen.elements ∧
+          isDigit19 c = true ∧ (∀ x ∈ cs, isAsciiDigit x = true) ∧
+          (c :: cs).length ≤ Gen.intMaxStrDigits) := by
+    intro s
+    rw [validKey_iff_simple]
+    constructor
+    · rintro (h | h | ⟨E, sign, C, h1, h2, h3, c, cs, rfl, h4, h5, h6⟩)
+      · exact .inl h
+      · exact .inr (.inl h)
+      · exact .inr (.inr ⟨E, sign, c, cs, h1, h2, h3, h4, h5, h6⟩)
+    · rintro (h | h | ⟨E, sign, c, cs, h1, h2, h3, h4, h5, h6⟩)
+      · exact .inl h
+      · exact .inr (.inl h)
+      · exact .inr (.inr ⟨E, sign, c :: cs, h1, h2, h3, c, cs, rfl, h4, h5, h6⟩)
+  have hentry : ∀ kv : PyKey × PyVal, EntryOK kv ↔
+      ∃ s, kv.1 = .str s ∧ kv.2.validCapacity = true ∧
+        (s = ['?'] ∨ s ∈ Gen.elements ∨
+          ∃ E sign c cs, s = E ++ sign :: c :: cs ∧ (sign = '+' ∨ sign = '-') ∧ E ∈ Gen.elements ∧
+            isDigit19 c = true ∧ (∀ x ∈ cs, isAsciiDigit x = true) ∧
+            (c :: cs).length ≤ Gen.intMaxStrDigits) := by
+    intro kv
+    constructor
+    · rintro ⟨s, h1, h2, h3⟩; exact ⟨s, h1, h3, (hkey s).1 h2⟩
+    · rintro ⟨s, h1, h2, h3⟩; exact ⟨s, h1, (hkey s).2 h3, h2⟩
   by_cases hq : HasQ d
   · rw [validateDict_of_hasQ hq, go_none_iff]
-    exact ⟨fun h => ⟨hq, h⟩, fun h => h.2⟩
+    exact ⟨fun h => ⟨hq, fun kv hkv => (hentry kv).1 (h kv hkv)⟩,
+           fun h kv hkv => (hentry kv).2 (h.2 kv hkv)⟩
   · rw [validateDict_of_noQ hq]
     constructor
     · intro h; simp at h
     · intro h; exact absurd h.1 hq
 
+-- non-vacuity: an accepted dict with a charged key, and the three ways a key can fail the
+-- grammar on its charge (leading zero, non-digit, too many digits)
+set_option maxRecDepth 100000 in
+example :
+    validateDict [(.str ['?'], .int 8), (.str "Fe+2".toList, .bool true), (.str "C-10".toList, .int 3)]
+      = none ∧
+    validateDict [(.str ['?'], .int 8), (.str "C+01".toList, .int 1)] = some .ValueError ∧
+    validateDict [(.str ['?'], .int 8), (.str "C+1a".toList, .int 1)] = some .ValueError ∧
+    validateDict [(.str ['?'], .int 8),
+      (.str ("C+".toList ++ List.replicate (Gen.intMaxStrDigits + 1) '1'), .int 1)]
+      = some .ValueError ∧
+    validateDict [(.str ['?'], .int 8),
+      (.str ("C+".toList ++ List.replicate Gen.intMaxStrDigits '1'), .int 1)] = none := by
+  decide +kernel
+
 /-- the key grammar, for an arbitrary `ELEMENTS` table (see `ValidKeySpec`): `?`, or a sign-free
     element, or `E ++ sign :: C` with `E` an element, `sign ∈ {+,-}` not occurring in `E`
     (the split point is the LAST of the first `+` and the first `-`) and `C` matching
-    `[1-9][0-9]*` -/
+    `[1-9][0-9]*` with at most `Gen.intMaxStrDigits` digits (`IsCharge`) -/
 theorem C12_validKey_spec (key : Str) : validKey key = true ↔ ValidKeySpec key :=
   validKey_iff key
 
 /-- the key grammar for the actual `ELEMENTS` (no element symbol contains a sign):
-    `?` | `E` | `E+C` | `E-C` -/
+    `?` | `E` | `E+C` | `E-C`, where `C` matches `[1-9][0-9]*` and has at most
+    `Gen.intMaxStrDigits` digits (the bound `int()` converts; repair of F10) -/
 theorem C12_validKey_spec_simple (key : Str) :
     validKey key = true ↔
       key = ['?'] ∨ key ∈ Gen.elements ∨
       ∃ E sign C, key = E ++ sign :: C ∧ (sign = '+' ∨ sign = '-') ∧ E ∈ Gen.elements ∧
-        IsCharge C :=
-  validKey_iff_simple key
+        (∃ c cs, C = c :: cs ∧ isDigit19 c = true ∧ (∀ x ∈ cs, isAsciiDigit x = true)) ∧
+        C.length ≤ Gen.intMaxStrDigits := by
+  rw [validKey_iff_simple]
+  constructor
+  · rintro (h | h | ⟨E, sign, C, h1, h2, h3, c, cs, h4, h5, h6, h7⟩)
+    · exact .inl h
+    · exact .inr (.inl h)
+    · exact .inr (.inr ⟨E, sign, C, h1, h2, h3, ⟨c, cs, h4, h5, h6⟩, h7⟩)
+  · rintro (h | h | ⟨E, sign, C, h1, h2, h3, ⟨c, cs, h4, h5, h6⟩, h7⟩)
+    · exact .inl h
+    · exact .inr (.inl h)
+    · exact .inr (.inr ⟨E, sign, C, h1, h2, h3, c, cs, h4, h5, h6, h7⟩)
+
+/-- **The bound is sharp** (boundary of the repaired grammar): for every element `E`, sign and
+    charge text `C` matching `[1-9][0-9]*`, the key `E sign C` is valid iff `C` has at most
+    `Gen.intMaxStrDigits` digits. -/
+theorem C12_validKey_charge_bound {E : Str} (hE : E ∈ Gen.elements) {sign : Char}
+    (hs : sign = '+' ∨ sign = '-') {c : Char} {cs : Str} (hc : isDigit19 c = true)
+    (hcs : ∀ x ∈ cs, isAsciiDigit x = true) :
+    validKey (E ++ sign :: c :: cs) = true ↔ (c :: cs).length ≤ Gen.intMaxStrDigits := by
+  rw [validKey_iff_simple]
+  constructor
+  · rintro (h | h | ⟨E', sign', C, h1, h2, h3, h4⟩)
+    · have := congrArg List.length h
+      simp at this
+      omega
+    · have := (elements_no_sign _ h)
+      rcases hs with rfl | rfl
+      · exact absurd (by simp) this.1
+      · exact absurd (by simp) this.2
+    · -- the split is unique: `C` has no sign and `E`, `E'` have no sign
+      have hC := h4.no_sign
+      have hlen := h4.length_le
+      have hE'ns := elements_no_sign _ h3
+      have hEns := elements_no_sign _ hE
+      have hcns : ∀ x ∈ c :: cs, x ≠ '+' ∧ x ≠ '-' := by
+        intro x hx
+        rcases List.mem_cons.1 hx with rfl | hx
+        · exact isDigit19_ne_sign hc
+        · exact isAsciiDigit_ne_sign (hcs x hx)
+      have hsuf : c :: cs = C := by
+        have key : ∀ (A B : Str) (a b : Char) (X Y : Str),
+            A ++ a :: X = B ++ b :: Y → (∀ x ∈ A, x ≠ '+' ∧ x ≠ '-') → (∀ x ∈ B, x ≠ '+' ∧ x ≠ '-') →
+            (a = '+' ∨ a = '-') → (b = '+' ∨ b = '-') → X = Y := by
+          intro A
+          induction A with
+          | nil =>
+            intro B a b X Y h hA hB ha hb
+            cases B with
+            | nil => simp at h; exact h.2
+            | cons y B =>
+              simp at h
+              have := hB y (List.mem_cons_self ..)
+              rcases ha with rfl | rfl
+              · exact absurd h.1.symm this.1
+              · exact absurd h.1.symm this.2
+          | cons x A ih =>
+            intro B a b X Y h hA hB ha hb
+            cases B with
+            | nil =>
+              simp at h
+              have := hA x (List.mem_cons_self ..)
+              rcases hb with rfl | rfl
+              · exact absurd h.1 this.1
+              · exact absurd h.1 this.2
+            | cons y B =>
+              simp at h
+              exact ih B a b X Y h.2 (fun z hz => hA z (List.mem_cons_of_mem _ hz))
+                (fun z hz => hB z (List.mem_cons_of_mem _ hz)) ha hb
+        exact key E E' sign sign' (c :: cs) C h1
+          (fun x hx => ⟨fun e => hEns.1 (e ▸ hx), fun e => hEns.2 (e ▸ hx)⟩)
+          (fun x hx => ⟨fun e => hE'ns.1 (e ▸ hx), fun e => hE'ns.2 (e ▸ hx)⟩) hs h2
+      rw [hsuf]; exact hlen
+  · intro hlen
+    exact .inr (.inr ⟨E, sign, c :: cs, rfl, hs, hE, c, cs, rfl, hc, hcs, hlen⟩)
+
+-- boundary: exactly `Gen.intMaxStrDigits` charge digits is valid, one more is not
+set_option maxRecDepth 100000 in
+example :
+    validKey ("C+".toList ++ List.replicate Gen.intMaxStrDigits '1') = true ∧
+    validKey ("C+".toList ++ List.replicate (Gen.intMaxStrDigits + 1) '1') = false ∧
+    validKey ("Zn-9".toList ++ List.replicate (Gen.intMaxStrDigits - 1) '0') = true ∧
+    validKey ("Zn-9".toList ++ List.replicate Gen.intMaxStrDigits '0') = false := by
+  decide +kernel
 
 theorem C12_validCapacity_spec (v : PyVal) :
     v.validCapacity = true ↔ (∃ z : Int, 0 ≤ z ∧ v = .int z) ∨ ∃ b, v = .bool b := by
